@@ -24,6 +24,7 @@ type jsArg struct {
 	n    *anode
 	glob string      // name of a Go-valued global the source refers to
 	gov  interface{} // its value
+	twin *anode      // what the argument would denote under a known defect (for its signature)
 }
 
 func numLit(f float64) string { return bridge.JSNumSrc(f) }
@@ -75,6 +76,11 @@ func jsArgs() []jsArg {
 	add("[a,b]", `["a","b"]`, nArr(nStr("a"), nStr("b")))
 	add("[1,undefined]", "[1,undefined]", nArr(nNum(1), &anode{k: aUndef}))
 	add("[null]", "[null]", nArr(&anode{k: aNull}))
+	add("[1,get 9,3]", `(function(){ var a = [1,2,3]; Object.defineProperty(a, "1", {get: function(){ return 9 }, enumerable: true}); return a })()`,
+		nArr(nNum(1), nNum(9), nNum(3)))
+	l[len(l)-1].twin = nArr(nNum(1), &anode{k: aHole}, nNum(3)) // the accessor element skipped like a hole
+	add("{a:get 4}", `(function(){ var o = {}; Object.defineProperty(o, "a", {get: function(){ return 4 }, enumerable: true}); return o })()`,
+		nObj("a", nNum(4)))
 	add("fn:inc", "(function(x){ return x + 1 })", &anode{k: aFunc, fn: "inc"})
 	add("fn:frac", "(function(x){ return 1.5 })", &anode{k: aFunc, fn: "frac"})
 	add("fn:throw", "(function(x){ throw new Error(\"boom\") })", &anode{k: aFunc, fn: "throw"})
@@ -427,6 +433,20 @@ func (m *matrixRig) matrixCase(r *engine.Run, key string, ti int, pt ptype, shap
 	}
 	aux := map[string]string{"T": pt.name, "shape": shape, "arg": a.name, "plain": o1.status, "try": o2.status,
 		"recv": renderRecv(o1.recv), "model": describe(wantT, want)}
+	if a.twin != nil && o1.status == "ok" && len(o1.recv) == 1 {
+		tw := a.twin
+		switch shape {
+		case "var1":
+			if !match(wantT, tw, o1.recv[0]) {
+				tw = nArr(a.twin)
+			}
+		case "var2", "vararr":
+			tw = nArr(a.twin, a.twin)
+		}
+		if match(wantT, tw, o1.recv[0]) || (shape == "vararr" && match(wantT, nArr(tw), o1.recv[0])) {
+			aux["twin"] = "match"
+		}
+	}
 	if got.M["plain"] != "accepted" || got.M["try"] != "accepted" || got.M["consistent"] != "" {
 		// one mismatch per cell (both executions share the cause)
 		gs, es := got.String(), exp.String()
